@@ -98,7 +98,9 @@ class GlobalPhaseGate(raw_types.Gate):
 
         Returns: True if the coefficient is within rounding error of 1.
         """
-        return not protocols.is_parameterized(self._coefficient) and np.isclose(self.coefficient, 1)
+        return not protocols.is_parameterized(self._coefficient) and np.isclose(
+            self.coefficient, 1, rtol=0, atol=1e-12
+        )
 
     def controlled(
         self,
